@@ -20,3 +20,14 @@ package fstree
 //@   ghost var rm *record.Meta = nil
 //@   at after (*Meta).CheckPermission ghost rm = r.meta
 //@   at send Next assert ok && l0 == local && i0 == internal && m0 == rm
+
+// C17: a record file is published by exactly one rename of a synced, closed temporary file
+//@ func writeFile
+//@   modifies fsSynced, fsClosed, fsPublishes, fsPubSrc, fsPubDst, fsRemoves, fsRemoved
+//@   ghost var tf *renameio.PendingFile = nil
+//@   at after TempFile ghost tf = ret0
+//@   at call (*File).Write assert tf != nil && arg0 == tf.File
+//@   at call (*File).Chmod assert tf != nil && arg0 == tf.File
+//@   ensures r0 == nil && !isTemp(filename) ==> fsPublishes == old(fsPublishes) + 1 && fsPubDst == filename && isTemp(fsPubSrc)
+//@   ensures r0 != nil || isTemp(filename) ==> fsPublishes == old(fsPublishes)
+//@   ensures r0 != nil && tf != nil ==> fsRemoved == nameOf(tf.File) && isTemp(fsRemoved)
